@@ -60,7 +60,7 @@ type Step struct {
 	Name string `json:"name,omitempty"`
 }
 
-var editOps = []string{"addGlobal", "addFunc", "addBlock", "appendInst", "appendInst", "appendInst", "insertInst", "insertInst", "removeInst", "replaceInst", "replaceInst", "bulkAppend", "replaceTerm", "rename", "renameGlobal", "renameBlock", "addMetadata", "setAddrSpace", "setAddrSpace", "keepType", "keepType", "takeBlockAddress"}
+var editOps = []string{"addGlobal", "addFunc", "addBlock", "appendInst", "appendInst", "appendInst", "insertInst", "insertInst", "removeInst", "replaceInst", "replaceInst", "bulkAppend", "replaceTerm", "rename", "renameGlobal", "renameBlock", "addMetadata", "setAddrSpace", "setAddrSpace", "keepType", "keepType", "useComdat", "useComdat", "listComdat", "dropComdat", "takeBlockAddress"}
 var observeOps = []string{"obsString", "obsString", "obsWriteTo", "obsFailingWrite", "obsPanickingPrint", "obsFunc", "obsBlock", "obsInst", "obsType", "obsIdent", "obsOperands", "obsSuccs", "obsInitializer", "obsFailedCalls"}
 
 // world is the state built by replaying a history.
@@ -425,6 +425,47 @@ func (w *world) apply(s Step, observe bool) (printed string, isPrint bool) {
 			}
 			if len(as) > 0 {
 				as[pick(len(as), s.B)].AddrSpace = types.AddrSpace(1 + s.C%4)
+			}
+		}
+	case "useComdat":
+		// a comdat is created and used by a global variable or a function before the module lists it (the order
+		// in which a front end naturally works); "listComdat" lists the pending ones later, "dropComdat" takes
+		// the use away again
+		w.nameN++
+		cd := &ir.ComdatDef{Name: fmt.Sprintf("c%d", w.nameN), Kind: enum.SelectionKindAny}
+		if s.D%2 == 0 {
+			if k := pick(len(m.Globals), s.A); k >= 0 && m.Globals[k].Comdat == nil {
+				m.Globals[k].Comdat = cd
+			}
+		} else if k := pick(len(m.Funcs), s.A); k >= 0 && m.Funcs[k].Comdat == nil && len(m.Funcs[k].Blocks) > 0 {
+			m.Funcs[k].Comdat = cd
+		}
+	case "listComdat":
+		listed := map[*ir.ComdatDef]bool{}
+		for _, cd := range m.ComdatDefs {
+			listed[cd] = true
+		}
+		for _, g := range m.Globals {
+			if g.Comdat != nil && !listed[g.Comdat] {
+				m.ComdatDefs = append(m.ComdatDefs, g.Comdat)
+				listed[g.Comdat] = true
+			}
+		}
+		for _, f := range m.Funcs {
+			if f.Comdat != nil && !listed[f.Comdat] {
+				m.ComdatDefs = append(m.ComdatDefs, f.Comdat)
+				listed[f.Comdat] = true
+			}
+		}
+	case "dropComdat":
+		listed := map[*ir.ComdatDef]bool{}
+		for _, cd := range m.ComdatDefs {
+			listed[cd] = true
+		}
+		for _, g := range m.Globals {
+			if g.Comdat != nil && !listed[g.Comdat] {
+				g.Comdat = nil
+				break
 			}
 		}
 	case "takeBlockAddress":
